@@ -80,6 +80,28 @@ def attribute_annotations(
     return attributes
 
 
+def _with_resolved_parameters(
+    argument: Any,
+    /,
+    type_parameters: dict[str, Any],
+) -> Any:
+    # an alias argument is written in the scope using the alias, resolve type parameters it mentions
+    # there - the alias may name its own parameters the same way
+    parameters: tuple[Any, ...] = getattr(argument, "__parameters__", ())
+    if not parameters or not all(isinstance(parameter, TypeVar) for parameter in parameters):
+        return argument
+
+    return argument[
+        tuple(
+            type_parameters.get(
+                parameter.__name__,
+                parameter.__bound__ or Any,
+            )
+            for parameter in parameters
+        )
+    ]
+
+
 def _resolve_attribute_annotation(  # noqa: C901, PLR0911, PLR0912, PLR0913
     annotation: Any,
     /,
@@ -149,7 +171,7 @@ def _resolve_attribute_annotation(  # noqa: C901, PLR0911, PLR0912, PLR0913
                                     argument.__bound__ or Any,
                                 )
                                 if isinstance(argument, TypeVar)
-                                else argument
+                                else _with_resolved_parameters(argument, type_parameters)
                                 for parameter, argument in zip(
                                     alias.__type_params__,
                                     get_args(generic_alias),
